@@ -2676,6 +2676,16 @@ def run_tools(ctx):
         "violation_counts": dict(vio_counts), "generator_selfcheck_mismatches": len(total.selfcheck_bad), "internal_errors": len(total.internal),
         "samples": samples, "generation_cpu_s": round(gen_time[0], 2), "wall_s": round(time.time() - t0, 2),
     }
+    # a part that evaluated nothing is a failure of the check infrastructure, never a pass
+    nseed = sum(1 for prof, *_ in cases if prof.startswith("seed:"))
+    floors = {"entries_compared": stats["entries_compared"], "fixpoint_runs": stats["fixpoint_runs"], "gnutar_readbacks": total.cnt["gnutar_readbacks"],
+              "tarfile_readbacks": total.cnt["tarfile_readbacks"], "socket_images": stats["socket_images"], "tool_runs": total.cnt["tool_runs"]}
+    empty = [k for k, v in floors.items() if not v]
+    if nseed and 2 * total.cnt["seed_archives_skipped_readers_disagree"] > nseed:
+        empty.append("seed archives: %d of %d skipped because the independent readers disagree about them" % (
+            total.cnt["seed_archives_skipped_readers_disagree"], nseed))
+    if empty:
+        raise vlib.CheckFailure("C04 tool level: sub-checks that evaluated nothing: %s" % empty)
     return stats
 
 
